@@ -251,6 +251,7 @@ func checkC20(c *Ctx) {
 	ruleFmtEsc(c)
 	ruleFmtQuote(c)
 	ruleFmtIndent(c)
+	ruleLineReset(c)
 }
 
 // errChain: see rule WRITE-GUARD (helper mode).
